@@ -413,7 +413,7 @@ def run(ctx):
         cases = [c]
     else:
         cases = []
-        while len(cases) < ctx.budget(18, 2500):
+        while len(cases) < ctx.budget(18, 1000):
             c = gen_case(rng)
             if c is not None:
                 cases.append(c)
@@ -444,7 +444,7 @@ def run(ctx):
             ctx.disagree("LFI._update model vs real", "%s | %s | program: %s" % (
                 config, d, results[ci][config]["src"].replace("\n", " ")))
     ctx.obligation("correspondence: Lean M-step model = real _update/_normalize_weights on %d real E-step outputs" % len(lines),
-                   ndiff == 0 and len(lines) > 0, first or "")
+                   ndiff == 0 and (len(lines) > 0 or bool(ctx.replay_in)), first or "")
     # ---- property
     nshrunk = 0
     witness_seen = False
